@@ -122,6 +122,7 @@ type TypeInv struct {
 }
 
 type GuardDecl struct {
+	Why    string   // noclaim: the stated reason
 	Kind   string   // guarded, immutable, initonly, noclaim
 	Fields []string // qualified T.f
 	By     string   // qualified T.m
@@ -762,9 +763,21 @@ func (cs *Contracts) loadContractFile(path, pkgPath string, short map[string]str
 				gd.Fields = append(gd.Fields, "("+star+cs.qualify(m[1], pkgPath, short)+")."+m[2])
 			}
 			cs.Guards = append(cs.Guards, gd)
-		case "immutable", "guarded", "initonly", "noclaim", "neverclosed", "closeonly", "chanlog":
+		case "immutable", "guarded", "initonly", "noclaim", "neverclosed", "closeonly", "chanlog", "fieldcover":
 			gd := &GuardDecl{Kind: word, Pkg: pkgPath}
 			body := rest
+			if i := strings.Index(body, " because "); i >= 0 {
+				gd.Why = strings.TrimSpace(body[i+9:])
+				body = body[:i]
+			}
+			if word == "fieldcover" {
+				// fieldcover T1, T2: every field of these structs must be classified (guarded / immutable / initonly / noclaim) or be a sync primitive
+				for _, tn := range splitTop(body) {
+					gd.Fields = append(gd.Fields, cs.qualify(strings.TrimSpace(tn), pkgPath, short))
+				}
+				cs.Guards = append(cs.Guards, gd)
+				break
+			}
 			if i := strings.Index(body, " by "); i >= 0 {
 				by := strings.TrimSpace(body[i+4:])
 				if strings.HasPrefix(by, "owner ") {
